@@ -10,8 +10,8 @@ import hub_sched as hs
 VERIF = os.path.dirname(os.path.dirname(os.path.abspath(__file__)))
 
 EXTRACT_V = """From Coq Require Import Extraction ExtrOcamlBasic.
-From NQ Require Import Net.Hub.
-Extraction "hubm.ml" stepl init observe erase run_labels finished.
+From NQ Require Import Net.Hub Net.Bcast.
+Extraction "hubm.ml" stepl init observe erase run_labels finished binit brun_labels bobserve.
 """
 
 
@@ -242,6 +242,11 @@ class Driver:
 
 
 # ------------------------------------------------------------------ oracle on the implementation
+def where_blocked(run, t):
+    w = run.away_where.get(t)
+    return f" (blocked for real in {w}: a wait the scheduler cannot see)" if w else ""
+
+
 def oracle(run, cfg):
     """The property itself, checked on one execution of the real hub.
     cfg is the int-keyed configuration; run is the finished hub_sched.Run.
@@ -307,7 +312,8 @@ def oracle(run, cfg):
             i = res[r][-1][0]
             kind = cfg[r]["ops"][i][0]
             if kind == "recv" and left:
-                bad.append(("blocked", f"thread {r} blocked in recv with {left} queued"))
+                bad.append(("blocked", f"blocking receive does not return although a message is queued: thread {r} "
+                                       f"blocked in recv with {left} queued" + where_blocked(run, r)))
     # an endpoint whose receive callback is registered in the hub at the end (it is listening in callback mode) and
     # that never disconnected must have nothing left in its queue (also after a switch of use_callbacks)
     if run.end_reason in ("done", "quiescent"):
@@ -329,9 +335,9 @@ def oracle(run, cfg):
         if run.status[t] == "blocked" and run.end_reason == "quiescent":
             i = res[t][-1][0]
             if th["ops"][i][0] == "connect" and tuple(rkey(th["key"])) in final_open:
-                bad.append(("blocked", f"thread {t} blocked in connect although the peer is open"))
+                bad.append(("blocked", f"thread {t} blocked in connect although the peer is open" + where_blocked(run, t)))
             if th["ops"][i][0] not in ("connect", "recv"):
-                bad.append(("blocked", f"thread {t} blocked in {th['ops'][i][0]}"))
+                bad.append(("blocked", f"thread {t} blocked in {th['ops'][i][0]}" + where_blocked(run, t)))
     # rendezvous: connect returns only after the peer has opened (and that opening is not used up)
     log = run.log
     for t, th in enumerate(cfg):
@@ -464,5 +470,55 @@ def oracle_bcast(run, cfg):
                 bad.append(("bcast-exactly-once", f"node {me}: received {show(got)} + queued {show(left)} != sent by node {b} {show(sent)}"))
             elif blocked_in_recv and left:
                 bad.append(("bcast-listening", f"node {me} (thread {t}) is still blocked in its receive although "
-                                               f"{show(left)} from node {b} is pending in the hub: it will never be received"))
+                                               f"{show(left)} from node {b} is pending in the hub: it will never be received"
+                                               + where_blocked(run, t)))
     return bad
+
+
+# ---- broadcast endpoints through the model (Net/Bcast.v): step-level correspondence
+def bcfg_line(cfg):
+    parts = ["BCFG"]
+    for th in cfg:
+        if th.get("kind") == "bc":
+            ops = [{"bconnect": "C", "brecv": "R", "bclose": "D"}.get(o[0]) or f"S{o[1]}" for o in th["ops"]]
+            parts.append(f"B {th['app']} {','.join(map(str, th['remotes']))} " + " ".join(ops))
+        else:
+            a, b, i = th["key"]
+            ops = [{"connect": "C", "recv": "R", "recvnb": "N", "disconnect": "D"}.get(o[0]) or f"S{o[1]}"
+                   for o in th["ops"] if o[0] != "setcb"]
+            parts.append(f"R {a} {b} {i} " + " ".join(ops))
+    return " ; ".join(parts)
+
+
+def canon_impl_bc(run, cfg):
+    ps = []
+    for t, th in enumerate(cfg):
+        bres, res, done = [], [], 0
+        for (_i, r, *_rest) in run.results[t]:
+            if r == "blocked":
+                continue
+            done += 1
+            if th.get("kind") == "bc":
+                bres.append(["bmsg", int(r[1][1:]), unpay(r[2])] if isinstance(r, list) else r)
+            else:
+                res.append(["msg", unpay(r[1])] if isinstance(r, list) else r)
+        ps.append(dict(bres=bres, left=len(th["ops"]) - done, res=res))
+
+    def k3(k):
+        return [int(k[0][1:]), int(k[1][1:]), k[2]]
+
+    q = sorted([k3(k), [unpay(x) for x in list.__iter__(v)]] for k, v in dict.items(run.hub._messages) if list.__len__(v))
+    return dict(parties=ps, queues=q, open=sorted(k3(k) for k in set.__iter__(run.hub._open_sockets)),
+                rem=sorted(k3(k) for k in set.__iter__(run.hub._remote_sockets)))
+
+
+def canon_model_bc(o):
+    return dict(parties=o["parties"], queues=sorted(o["queues"]), open=sorted(o["open"]), rem=sorted(o["rem"]))
+
+
+def brun_model(drv, cfg, sched):
+    drv._send(bcfg_line(cfg))
+    drv._send("BRUN " + " ".join(map(str, sched)))
+    line = drv.proc.stdout.readline()
+    assert line.startswith("BRUN "), line
+    return json.loads(line[5:])
